@@ -488,6 +488,7 @@ func callIfaceNative(i *interpreter, fr *frame, meth string, args []value) value
 				}
 				sum = absBytes{u}
 			}
+			i.m.noteMAC(r.hname, bytesTerm(r.key), r.data, bytesTerm(sum), smtIdent("u_hmac_", r.hname)) // agentF1: A-mac injectivity
 			if pre, ok := args[1].([]value); ok && len(pre) == 0 {
 				return sum
 			}
